@@ -431,7 +431,7 @@ func judge(cs *Case, lines [][]*Line, outs []*OutRec, res *Result) {
 			ms, err := splitObject(r.JSON)
 			what := ""
 			if err != nil {
-				what = "the output event is not valid JSON: " + err.Error()
+				what = fmt.Sprintf("the encoded output event is not valid JSON (%v); it starts with %q", err, short(r.JSON, 24))
 			}
 			for _, m := range ms {
 				v := m.Raw
